@@ -104,6 +104,10 @@ def map_cases(tier):
         (['ACCACACCACTT'], [('rep', ['ACCACACCACTT']), ('part', ['CACCAC'])]),                     # repeated split k-mers in the reference
         (['ACGTTGCA', 'TGCAACGT'], [('x', ['ACGTTGCA']), ('y', ['ACGATGCA', 'ACGCTGCA'])]),      # reverse-complement contigs; ambiguity within a sample
         (['AACCGGTTAACC'], [('del', ['AACCGTTAACC']), ('ins', ['AACCGGATTAACC'])]),
+        # every split k-mer of the reference on both strands (a contig and its reverse complement); samples whose records disagree at
+        # a centre base in two and in three ways: the two- and three-base ambiguity codes and their complements
+        (['ACCAGTTGACCAT', _rcs('ACCAGTTGACCAT')], [('amb3', ['ACCAGTTGACCAT', 'ACCAGATGACC', 'ACCAGCTGACC']), ('amb2', ['CCAGTTGAC', 'CCAGGTGAC', 'TTGACCAT', 'TTGTCCAT']),
+                                                   ('amb3r', [_rcs('ACCAGTTGACCAT'), _rcs('ACCAGGTGACC'), _rcs('ACCAGCTGACC')])]),
     ]
     if tier == 'thorough':
         base = 'ACCAGTTGAC'
